@@ -1,6 +1,6 @@
 use std::convert::TryFrom;
 
-use rusty_bit_vec::{MAX_INTEGER, MIN_INTEGER};
+use rusty_bit_vec::{MAX_INTEGER, MAX_LONG, MIN_INTEGER, MIN_LONG};
 use rusty_linter::core::qualifier_of_variant;
 use rusty_parser::{FileHandle, TypeQualifier};
 use rusty_variant::Variant;
@@ -50,7 +50,8 @@ fn do_input_one_var<S: InterpreterTrait>(
         TypeQualifier::BangSingle => Variant::from(parse_single_input(raw_input)?),
         TypeQualifier::DollarString => Variant::from(raw_input),
         TypeQualifier::PercentInteger => Variant::from(parse_int_input(raw_input)?),
-        _ => todo!("INPUT type {} not supported yet", q),
+        TypeQualifier::AmpersandLong => Variant::from(parse_long_input(raw_input)?),
+        TypeQualifier::HashDouble => Variant::from(parse_double_input(raw_input)?),
     };
     interpreter.context_mut()[index] = new_value;
     Ok(())
@@ -86,6 +87,36 @@ fn parse_single_input(s: String) -> Result<f32, RuntimeError> {
             .map_err(|e| RuntimeError::Other(format!("Could not parse {} as float: {}", s, e)))?;
         if f.is_finite() {
             Ok(f)
+        } else {
+            Err(RuntimeError::Overflow)
+        }
+    }
+}
+
+fn parse_double_input(s: String) -> Result<f64, RuntimeError> {
+    if s.is_empty() {
+        Ok(0.0)
+    } else {
+        let d = s
+            .parse::<f64>()
+            .map_err(|e| RuntimeError::Other(format!("Could not parse {} as float: {}", s, e)))?;
+        if d.is_finite() {
+            Ok(d)
+        } else {
+            Err(RuntimeError::Overflow)
+        }
+    }
+}
+
+fn parse_long_input(s: String) -> Result<i64, RuntimeError> {
+    if s.is_empty() {
+        Ok(0)
+    } else {
+        let l = s
+            .parse::<i64>()
+            .map_err(|e| RuntimeError::Other(format!("Could not parse {} as long: {}", s, e)))?;
+        if (MIN_LONG..=MAX_LONG).contains(&l) {
+            Ok(l)
         } else {
             Err(RuntimeError::Overflow)
         }
